@@ -376,7 +376,7 @@ fn ev_app_use(b: &[u8]) -> R {
             ));
         }
         AnyTimelineEvent::State(AnyStateEvent::RoomServerAcl(StateEvent::Original(e))) => {
-            for s in ["example.org", "evil.example.org:8448", "[::1]", "1.2.3.4"] {
+            for s in ["example.org", "evil.example.org:8448", "[::1]", "1.2.3.4", "aaaaaaaaaaaaaaaaaaaaaaaaaaaaaaaaaaaaaaaaaaaaaaaaaaaaaaaaaaaaaaaa.example.org"] {
                 let sn: &ServerName = <&ServerName>::try_from(s).unwrap();
                 out.push_str(&format!(" acl({s})={}", e.content.is_allowed(sn)));
             }
